@@ -31,8 +31,20 @@ SubAct(D, ovf) == LET o == AddDateI(cur, -D.y, -D.mo, -D.w, -D.d, ovf)
                   IN /\ last' = [op |-> "subtract", a |-> cur, dur |-> D, ovf |-> ovf, out |-> o]
                      /\ cur' = IF o.kind = "ok" /\ o.val \in Window THEN o.val ELSE cur
 
+\* leap-day receivers against the days around the end of February of the neighbouring years (and the reverse): the candidate
+\* "same month and day, n years away" does not exist there
+AnchorDate == CHOOSE d \in Window : TRUE
+LeapYears == {2020, 2024, 2000}
+LeapPairs == UNION {{<<Date(y, 2, 29), Date(y + dy, m, d)>> : dy \in {-5, -4, -1, 1, 3, 4}, m \in {2, 3}, d \in {1, 28}} : y \in LeapYears}
+LeapUntil(pr, u, rev) == LET a == IF rev THEN pr[2] ELSE pr[1]   b == IF rev THEN pr[1] ELSE pr[2]
+                         IN /\ cur = AnchorDate /\ ValidDate(a) /\ ValidDate(b)
+                            /\ last' = [op |-> "until", a |-> a, b |-> b, u |-> u, r |-> Diff(a, b, u)] /\ UNCHANGED cur
+LeapSince(pr, u, rev) == LET a == IF rev THEN pr[2] ELSE pr[1]   b == IF rev THEN pr[1] ELSE pr[2]
+                         IN /\ cur = AnchorDate /\ ValidDate(a) /\ ValidDate(b)
+                            /\ last' = [op |-> "since", a |-> a, b |-> b, u |-> u, r |-> Diff(a, b, u)] /\ UNCHANGED cur
 Next == /\ (OneStep => last = None)
         /\ \/ \E b \in Window, u \in LargestSet : Until(b, u) \/ Since(b, u)
+           \/ \E pr \in LeapPairs, u \in LargestSet, rev \in BOOLEAN : LeapUntil(pr, u, rev) \/ LeapSince(pr, u, rev)
            \/ \E D \in DurSet, ovf \in {"constrain", "reject"} : AddAct(D, ovf) \/ SubAct(D, ovf)
            \/ \E D \in DurSet, tf \in TimeForms, ovf \in {"constrain"} : AbsSmall(D) /\ AddTimeAct(D, tf, ovf)
 Spec == Init /\ [][Next]_vars
